@@ -48,6 +48,8 @@ func runC03(c *report.Ctx) {
 	checkInitGateArrivals(c)
 	c.Clause("8 the barrier primitive (shared with C11)")
 	checkGatePrimitive(c)
+	checkNoServerTimeouts(c)
+	checkAgentMapsCleared(c) // identifiers of an earlier generation must not resolve and walk the new generation's gates
 	checkTracerWrappers(c)
 }
 
